@@ -432,6 +432,27 @@ package semver
 //@   ensures imp(s.contains(v, false), s.contains(v, true))
 //@   property C03
 
+// A set matches a version exactly when one of its spans contains it (SemVer
+// family; PyPI, NuGet and RubyGems have extra rules), and a set that reports
+// itself empty matches nothing. The set with no span at all is excluded: it
+// reports empty and yet matches every release (a design-phase finding; parsed
+// constraints always have at least one span).
+//@ opaque equalValues
+//@ opaque numsEqual
+//@ pred spansSet(s Set) = len(s.span) > 0 && forall(k, 0, len(s.span), s.span[k].rank == empty || (s.span[k].min != nil && s.span[k].max != nil))
+//@ lemma Set.matchVersion.exists
+//@   vars s Set; v *Version; p bool
+//@   unfold Set.matchVersion
+//@   requires v != nil && spansSet(s) && v.sys != RubyGems && v.sys != PyPI && v.sys != NuGet
+//@   ensures s.matchVersion(v, p) == exists(k, 0, len(s.span), s.span[k].contains(v, p))
+//@   property C09 C03
+//@ lemma Set.Empty.matches.nothing
+//@   vars s Set; v *Version; p bool
+//@   unfold Set.matchVersion Set.Empty span.contains
+//@   requires v != nil && spansSet(s) && v.sys != RubyGems && v.sys != PyPI && v.sys != NuGet
+//@   ensures imp(s.Empty(), !s.matchVersion(v, p))
+//@   property C09 C03
+
 // newSpan: a unit span is closed at both ends and holds exactly its one version;
 // a vector span keeps the flags it was given and has min strictly below max;
 // equal ends with an open flag give the empty span.
